@@ -474,7 +474,7 @@ Lemma request_update_fields c1 now r news :
 Proof.
   unfold request_update. destruct (rq_done r) as [d|] eqn:Ed.
   - cbn [fst]. rewrite Ed. repeat split; reflexivity.
-  - destruct (process_records c1 now (rq_info r) news) as [i' upd]. cbn. repeat split; reflexivity.
+  - destruct (process_records c1 now (rq_info r) (addresses_last news)) as [i' upd]. cbn. repeat split; reflexivity.
 Qed.
 
 Lemma do_step_const r h st r' h' outs :
